@@ -617,6 +617,17 @@ def div_c09(w):
 DIV_RULES["C09"] = div_c09
 
 
+def div_c07(w):
+    """an execution-block message that is honest in everything the state transition may look at, whose payload timestamp is
+    ahead of this machine's clock (`tsahead=1`): the model (whose transition has no clock at all) and every replica whose
+    clock is not behind execute it; an implementation that answers differently makes the result of a committed block depend
+    on the wall clock of the replica"""
+    return w["op"].split(" ")[1] == "tx.ethblock" and " tsahead=1" in w["op"] and crit(w["impl"]) != crit(w["model"])
+
+
+DIV_RULES["C07"] = div_c07
+
+
 def div_c14(w):
     """who is jailed for downtime / tombstoned for double-signing by a begin-block hook is pinned exactly by the
     model (theorems downtime_exact, non_active_not_counted, evidence_tombstones, stale_evidence_ignored,
@@ -630,7 +641,7 @@ def div_c14(w):
 DIV_RULES["C14"] = div_c14
 
 
-DIV_RULES["C18"] = lambda w: w["op"].split(" ")[1] == "a.export" and "lr=0" in crit(w["impl"])
+DIV_RULES["C18"] = lambda w: w["op"].split(" ")[1] == "a.export" and ("lr=0" in crit(w["impl"]) or "br=0" in crit(w["impl"]))
 
 
 def div_c06(w):
